@@ -477,7 +477,7 @@ PLANS["C17"] = dict(
     targets=[SRV + n for n in ("Server.close", "ThreadPoolServer._drop_connection", "ThreadPoolServer.close",
                                "Server._authenticate_and_serve_client", "OneShotServer._accept_method",
                                "ThreadPoolServer._accept_method", "Server._serve_client", "Server._handle_connection",
-                               "ThreadPoolServer._authenticate_and_build_connection")],
+                               "ThreadPoolServer._authenticate_and_build_connection", "ThreadPoolServer._add_inactive_connection")],
     lemmas=[], compositions=[], native_focus=[], design_ref="DESIGN.md section 4, C17",
     assumptions=COMMON_ASSUMPTIONS + [
         "PARTIAL, sequential: VERIFIED - Server.close is idempotent; the first call marks the server closed and inactive, attempts "
